@@ -60,6 +60,48 @@ type OrderImpl struct {
 	OrderUniverse func(s *OrderSpec, namer string, runs int) [][]int
 	// OrderTypes runs the real OrderTypes on the given id list.
 	OrderTypes func(s *OrderSpec, namer string, list []int) []int
+	// ContextOrder parses the spec as real source (SourceOf), builds a generator.Context with NewContext – several naming
+	// systems, `namer` the canonical one – and returns Context.Order restricted to the spec's entries as ids, plus what
+	// the oracle found wrong with the whole of Context.Order / Context.Namers ("" if nothing).
+	ContextOrder func(s *OrderSpec, namer string) (ids []int, wrong string, err error)
+}
+
+// SourceOf renders one package of the spec as Go source (names are distinct per package in specs made for it).
+func (p *OrderPkgSpec) SourceOf() string {
+	var b strings.Builder
+	b.WriteString("package " + pkgIdent(p.Path) + "\n\n")
+	for _, n := range p.Types {
+		b.WriteString("type " + n + " int64\n\n")
+	}
+	for _, n := range p.Funcs {
+		b.WriteString("func " + n + "() {}\n\n")
+	}
+	for _, n := range p.Vars {
+		b.WriteString("var " + n + " int64\n\n")
+	}
+	for _, n := range p.Consts {
+		b.WriteString("const " + n + " int64 = 1\n\n")
+	}
+	return b.String()
+}
+
+// ContextOracle judges a whole Context.Order: names of consecutive entries non-decreasing, every member of the universe
+// exactly once; and that every naming system handed to NewContext is in Context.Namers.
+func ContextOracle(orderNames []string, orderCount, universeCount int, distinct bool, haveNamers, wantNamers []string) string {
+	for i := 1; i < len(orderNames); i++ {
+		if orderNames[i] < orderNames[i-1] {
+			return fmt.Sprintf("Context.Order is not sorted by the canonical naming system: %q comes after %q", orderNames[i], orderNames[i-1])
+		}
+	}
+	if orderCount != universeCount || !distinct {
+		return fmt.Sprintf("Context.Order has %d entries (distinct: %v), the universe has %d members", orderCount, distinct, universeCount)
+	}
+	sort.Strings(haveNamers)
+	sort.Strings(wantNamers)
+	if fmt.Sprint(haveNamers) != fmt.Sprint(wantNamers) {
+		return fmt.Sprintf("Context.Namers has %v, NewContext was given %v", haveNamers, wantNamers)
+	}
+	return ""
 }
 
 func OrderProperty(impl OrderImpl) Property {
@@ -115,6 +157,23 @@ func OrderProperty(impl OrderImpl) Property {
 				}
 			}
 			out = idsField(runs[0])
+		case "context":
+			// the same question asked of generator.NewContext: Context.Order is the canonical order of the parsed universe
+			all := make([]int, len(keys))
+			for i := range all {
+				all[i] = i
+			}
+			ids, wrong, err := impl.ContextOrder(spec, namer)
+			if err != nil {
+				fails = append(fails, Failure{"generator-ill-typed", "the program made from the spec does not load (harness): " + err.Error()})
+				out = "-"
+				return
+			}
+			if wrong != "" {
+				fails = append(fails, Failure{"context-order", wrong})
+			}
+			check("NewContext", all, ids)
+			out = idsField(ids)
 		case "types":
 			list := parseIDs(f[4])
 			res := impl.OrderTypes(spec, namer, list)
@@ -183,6 +242,28 @@ func orderGen(c *Ctx, impl OrderImpl) {
 			}
 		}
 		return out
+	}
+	// generator.NewContext on real source: distinct identifiers per package, several naming systems, one of them canonical
+	if impl.ContextOrder != nil {
+		idents := []string{"Baz", "Foo", "Bar", "Qux", "A", "Zed", "Mid", "Box"}
+		cpaths := []string{"example.com/m/a", "example.com/m/a/b", "example.com/m/b", "example.com/m/z_x", "example.com/m/api/v1"}
+		for i, n := 0, c.Scale(12, 150); i < n; i++ {
+			spec := &OrderSpec{}
+			for _, pi := range r.Perm(len(cpaths))[:1+r.Intn(3)] {
+				ns := append([]string(nil), idents...)
+				for k := range ns {
+					j := r.Intn(k + 1)
+					ns[k], ns[j] = ns[j], ns[k]
+				}
+				a, b, cc, d := r.Intn(3), r.Intn(3), r.Intn(2), r.Intn(2)
+				spec.Pkgs = append(spec.Pkgs, OrderPkgSpec{Path: cpaths[pi], Types: ns[:a], Funcs: ns[a : a+b], Vars: ns[a+b : a+b+cc], Consts: ns[a+b+cc : a+b+cc+d]})
+			}
+			namer := r.Pick(namers)
+			keys := spec.Entries()
+			nm := impl.Names(spec, namer)
+			c.Case([]string{Line("ord", "context", Hex(namer), Hex(spec.Enc()), idsField(r.Perm(len(keys))), HexList(keys), HexList(nm))},
+				Meta{Nontrivial: len(keys) >= 2, Features: []string{"op:context"}})
+		}
 	}
 	// corpus: three types called Baz in three packages under the public namer (F4)
 	emit(&OrderSpec{Pkgs: []OrderPkgSpec{{Path: "a", Types: []string{"Baz"}}, {Path: "b", Types: []string{"Baz"}}, {Path: "c", Types: []string{"Baz", "Foo"}}}}, "public0", []string{"corpus"})
